@@ -267,3 +267,20 @@ package fasthttp
 //@   end
 //@   ensures[lookup-and-reader-registration-are-one-critical-section] locks_cacheLock == 1
 //@   ensures[at-most-the-duplicate-is-released] released <= 1
+
+// openFSFile (C24): compressAndOpenFSFile reuses a compressed copy that exists on disk. It is therefore asked to produce
+// the copy only when none could be opened, or after the stale one (older than the original by a second or more) was
+// removed -- otherwise the stale bytes and validators are served for the new file.
+//@ func fsHandler.openFSFile results ff err
+//@   property C24
+//@   mode skeleton
+//@   ghost opened bool = false
+//@   ghost removed bool = false
+//@   on call fs.FS.Open -> f, e:
+//@     effect opened = (e == nil)
+//@   on call os.Remove(p) -> e:
+//@     nohavoc
+//@     effect removed = removed || p == filePath
+//@   on call fsHandler.compressAndOpenFSFile -> r, e:
+//@     requires[no-stale-copy-left-for-reuse] !opened || removed
+//@   end
